@@ -51,6 +51,7 @@ type Contract struct {
 	Tags     []string
 	Asserts  []AssertSpec
 	Uses     []string
+	Writes   []string
 	Opts     map[string]string
 	File     string
 	Line     int
@@ -285,6 +286,10 @@ func (c *Contract) addClause(kw, rest, path string, line int) error {
 		}
 	case "use":
 		c.Uses = append(c.Uses, rest)
+	case "writes":
+		// writes p q: the call may write the backing arrays of the slice parameters p, q and nothing else
+		c.HasMod = true
+		c.Writes = append(c.Writes, strings.Fields(strings.ReplaceAll(rest, ",", " "))...)
 	case "pure":
 		c.HasMod = true
 	case "inline":
